@@ -66,6 +66,11 @@ def decide(spec, tier, seed):
     if not ok:
         broken.append({"kind": "broken-build", "obligation": "go build of the harness against /repo", "detail": out[-2000:]})
         log(out)
+    tagged = core.scan_build_constraints()
+    if tagged:
+        broken.append({"kind": "broken-obligation",
+                       "obligation": "the verif build tag only adds the recorded hook files (the library is checked as built without the tag)",
+                       "detail": "build constraints mentioning the tag outside verif_hooks.go: " + "; ".join(tagged[:10])})
     gen_ok = True
     if ok:
         gen_ok, gout = core.regenerate()
@@ -261,7 +266,7 @@ def replay(spec, path):
     if payload.get("preceding_requests_file") and os.path.exists(payload["preceding_requests_file"]):
         prefix = [l for l in open(payload["preceding_requests_file"]).read().splitlines() if l.strip()]
     for rq in reqs:
-        resp_all, raw_all = core.ask(core.ORACLE, prefix + [rq])
+        resp_all, raw_all = core.ask(core.ORACLE_HOOKS if any(core.needs_hooks(x) for x in prefix + [rq]) else core.ORACLE, prefix + [rq])
         resp, raw = resp_all[-1:], raw_all[-1:]
         if os.path.exists(core.DRIVER):
             m_all, _ = core.ask(core.DRIVER, prefix + [rq])
